@@ -78,6 +78,7 @@ type Contract struct {
 	TrustedWhy string
 	Pure       bool
 	NoInv      bool
+	NeedsInv   bool
 	Inline     bool
 	HasMod     bool
 	Modifies   []string
@@ -161,7 +162,7 @@ func NewSpecs() *Specs {
 	return &Specs{Fns: map[string]*SpecFn{}, Consts: map[string]*SpecConst{}, Defines: map[string]*SpecDefine{}, Ghosts: map[string]string{}, IfacePure: map[string]bool{}}
 }
 
-var directiveRe = regexp.MustCompile(`^(sort|fn|const|define|axiom|lemma|ginv|pkginv|noinv|inline|ghost|errattr|ifacepure|package|func|trusted|pure|modifies|let|requires|ensures|loop|invariant|decreases|bind)\b`)
+var directiveRe = regexp.MustCompile(`^(sort|fn|const|define|axiom|lemma|ginv|pkginv|noinv|needsinv|inline|ghost|errattr|ifacepure|package|func|trusted|pure|modifies|let|requires|ensures|loop|invariant|decreases|bind)\b`)
 
 type logicalLine struct {
 	text string
@@ -345,6 +346,11 @@ func (s *Specs) LoadFile(path string, repoStyle bool, defaultPkg string) error {
 				return errf("noinv outside func block")
 			}
 			cur.NoInv = true
+		case "needsinv":
+			if cur == nil {
+				return errf("needsinv outside func block")
+			}
+			cur.NeedsInv = true
 		case "inline":
 			if cur == nil {
 				return errf("inline outside func block")
